@@ -1,5 +1,7 @@
 //! driver of the C-vs-Rust differential programs
 use crate::ps::{self, Side};
+use crate::ev;
+use crate::rr;
 use vkit::{Args, Json, Report, Rng};
 
 pub fn run(args: &Args) -> Report {
@@ -15,6 +17,30 @@ pub fn run(args: &Args) -> Report {
     while std::time::Instant::now() < deadline {
         let pi = only.unwrap_or(i);
         let mut rng = Rng::derive(&[seed, shard, pi, 1818]);
+        let pattern = match args.str("pattern", "all").as_str() {
+            "ps" => 0,
+            "ev" => 1,
+            "rr" => 2,
+            _ => pi % 3,
+        };
+        if pattern == 2 {
+            rr_program(&mut rep, &d, &mut rng, seed, shard, pi);
+            rep.count("programs", 1);
+            i += 1;
+            if only.is_some() {
+                break;
+            }
+            continue;
+        }
+        if pattern == 1 {
+            ev_program(&mut rep, &d, &mut rng, seed, shard, pi);
+            rep.count("programs", 1);
+            i += 1;
+            if only.is_some() {
+                break;
+            }
+            continue;
+        }
         let (cfg, ops) = ps::gen(&mut rng);
         let assignments: Vec<(&str, Side, [Side; 2], [Side; 2])> = vec![
             ("all-rust", Side::R, [Side::R, Side::R], [Side::R, Side::R]),
@@ -65,4 +91,93 @@ pub fn run(args: &Args) -> Report {
         }
     }
     rep
+}
+
+fn ev_program(rep: &mut Report, d: &crate::dom::Domain, rng: &mut Rng, seed: u64, shard: u64, pi: u64) {
+    let (cfg, ops) = ev::gen(rng);
+    let assignments: Vec<(&str, Side, [Side; 2], [Side; 2])> = vec![
+        ("all-rust", Side::R, [Side::R, Side::R], [Side::R, Side::R]),
+        ("all-c", Side::C, [Side::C, Side::C], [Side::C, Side::C]),
+        ("c-notifier/rust-listener", Side::C, [Side::C, Side::C], [Side::R, Side::R]),
+        ("rust-notifier/c-listener", Side::R, [Side::R, Side::R], [Side::C, Side::C]),
+        ("mixed", if rng.chance(1, 2) { Side::R } else { Side::C }, [Side::R, Side::C], [Side::C, Side::R]),
+    ];
+    let mut reference: Option<Vec<String>> = None;
+    let replay = format!("diff --seed {} --shard {} --only-prog {}", seed, shard, pi);
+    for (ai, (aname, creator, ns, ls)) in assignments.iter().enumerate() {
+        let name = format!("c18e_{}_{}_{}", std::process::id(), pi, ai);
+        let out = ev::run(d, &name, &cfg, &ops, *creator, *ns, *ls);
+        rep.execs += 1;
+        for (rule, msg) in &out.bad {
+            rep.violation(rule, format!("C18:ev:{}", rule), format!("assignment {} cfg {:?}: {}", aname, cfg, msg), Json::obj().set("replay_args", replay.clone()));
+        }
+        if !out.residue.is_empty() {
+            rep.violation("residue_after_all_handles_dropped", "C18:ev:residue_after_all_handles_dropped", format!("assignment {}: {:?}", aname, &out.residue[..out.residue.len().min(4)]), Json::obj().set("replay_args", replay.clone()));
+            d.cleanup();
+            let _ = std::fs::create_dir_all(&d.root);
+        }
+        match &reference {
+            None => reference = Some(out.trace.clone()),
+            Some(r) => {
+                if *r != out.trace {
+                    let at = r.iter().zip(out.trace.iter()).position(|(a, b)| a != b).unwrap_or(r.len().min(out.trace.len()));
+                    rep.violation(
+                        "c_trace_differs_from_rust_trace",
+                        "C18:ev:c_trace_differs_from_rust_trace",
+                        format!("cfg {:?}: at step {} ({:?}) the all-Rust run observed {:?}, assignment {} observed {:?}", cfg, at, ops.get(at.saturating_sub(1)), r.get(at), aname, out.trace.get(at)),
+                        Json::obj().set("replay_args", replay.clone()).set("ops", format!("{:?}", ops)),
+                    );
+                } else {
+                    rep.nontrivial += 1;
+                    rep.distinct(vkit::mix(vkit::fnv_str(&format!("{:?}{:?}", cfg, ops)), ai as u64));
+                }
+            }
+        }
+    }
+}
+
+fn rr_program(rep: &mut Report, d: &crate::dom::Domain, rng: &mut Rng, seed: u64, shard: u64, pi: u64) {
+    let (cfg, ops) = rr::gen(rng);
+    let assignments: Vec<(&str, Side, [Side; 2], [Side; 2])> = vec![
+        ("all-rust", Side::R, [Side::R, Side::R], [Side::R, Side::R]),
+        ("all-c", Side::C, [Side::C, Side::C], [Side::C, Side::C]),
+        ("c-client/rust-server", Side::C, [Side::C, Side::C], [Side::R, Side::R]),
+        ("rust-client/c-server", Side::R, [Side::R, Side::R], [Side::C, Side::C]),
+        ("mixed", if rng.chance(1, 2) { Side::R } else { Side::C }, [Side::R, Side::C], [Side::C, Side::R]),
+    ];
+    let mut reference: Option<Vec<String>> = None;
+    let replay = format!("diff --seed {} --shard {} --only-prog {}", seed, shard, pi);
+    for (ai, (aname, creator, ns, ls)) in assignments.iter().enumerate() {
+        let name = format!("c18r_{}_{}_{}", std::process::id(), pi, ai);
+        let out = rr::run(d, &name, &cfg, &ops, *creator, *ns, *ls);
+        if std::env::var("C18_DUMP").is_ok() {
+            eprintln!("{:>28}: {}", aname, out.trace.join(" | "));
+        }
+        rep.execs += 1;
+        for (rule, msg) in &out.bad {
+            rep.violation(rule, format!("C18:rr:{}", rule), format!("assignment {} cfg {:?}: {}", aname, cfg, msg), Json::obj().set("replay_args", replay.clone()));
+        }
+        if !out.residue.is_empty() {
+            rep.violation("residue_after_all_handles_dropped", "C18:rr:residue_after_all_handles_dropped", format!("assignment {}: {:?}", aname, &out.residue[..out.residue.len().min(4)]), Json::obj().set("replay_args", replay.clone()));
+            d.cleanup();
+            let _ = std::fs::create_dir_all(&d.root);
+        }
+        match &reference {
+            None => reference = Some(out.trace.clone()),
+            Some(r) => {
+                if *r != out.trace {
+                    let at = r.iter().zip(out.trace.iter()).position(|(a, b)| a != b).unwrap_or(r.len().min(out.trace.len()));
+                    rep.violation(
+                        "c_trace_differs_from_rust_trace",
+                        "C18:rr:c_trace_differs_from_rust_trace",
+                        format!("cfg {:?}: at step {} ({:?}) the all-Rust run observed {:?}, assignment {} observed {:?}", cfg, at, ops.get(at.saturating_sub(1)), r.get(at), aname, out.trace.get(at)),
+                        Json::obj().set("replay_args", replay.clone()).set("ops", format!("{:?}", ops)),
+                    );
+                } else {
+                    rep.nontrivial += 1;
+                    rep.distinct(vkit::mix(vkit::fnv_str(&format!("{:?}{:?}", cfg, ops)), ai as u64));
+                }
+            }
+        }
+    }
 }
